@@ -1146,10 +1146,13 @@ class SessionTransaction(_StateChange, TransactionalContext):
         """
         assert self._is_transaction_boundary
 
-        if not self.nested and self.session.expire_on_commit:
-            for s in self.session.identity_map.all_states():
-                s._expire(s.dict, self.session.identity_map._modified)
+        if not self.nested:
+            if self.session.expire_on_commit:
+                for s in self.session.identity_map.all_states():
+                    s._expire(s.dict, self.session.identity_map._modified)
 
+            # deleted objects leave the session with the transaction,
+            # whether or not the remaining objects are expired
             statelib.InstanceState._detach_states(
                 list(self._deleted), self.session
             )
